@@ -201,31 +201,37 @@ def apply_perturbation(fsdir: str, ckdir_rel: str, pert: dict, ctx: dict) -> dic
     if kind == "tmp_subset":
         for t in tmps:
             files = all_files(os.path.join(d, t))
+            prune = rng.random() < 0.5
+            sub = random.Random(rng.random())
             for f in files:
-                if rng.random() < 0.5:
+                if sub.random() < 0.5:
                     os.remove(f)
-                    done["applied"] += 1
-            if rng.random() < 0.5:
+                    done["applied"] = 1
+            if prune:
                 prune_empty_dirs(os.path.join(d, t))
     elif kind == "tmp_trunc":
         for t in tmps:
             files = [f for f in all_files(os.path.join(d, t)) if os.path.basename(f).startswith("_") or f.endswith(".json")]
             if files:
-                f = files[rng.randrange(len(files))]
+                f = files[int(rng.random() * len(files))]
                 open(f, "w").close()
-                done["applied"] += 1
+                done["applied"] = 1
     elif kind == "partial_delete":
         j = ctx.get("expiring")
         if j is not None and os.path.isdir(os.path.join(d, str(j))):
+            # (TensorStore's data-file names and count vary between executions: choices are
+            #  made by fraction, and only whether anything was removed enters the history)
             files = all_files(os.path.join(d, str(j)))
-            order = list(files)
-            rng.shuffle(order)
-            ncut = rng.randint(1, len(order)) if order else 0
+            frac, whole = rng.random(), rng.random() < 0.5
+            order = sorted(files, key=lambda f: (os.path.basename(os.path.dirname(f)) == "d", f))
+            rot = int(rng.random() * len(order)) if order else 0
+            order = order[rot:] + order[:rot]
+            ncut = len(order) if frac > 0.85 else max(1, int(frac * len(order))) if order else 0
             for f in order[:ncut]:
                 os.remove(f)
-                done["applied"] += 1
+                done["applied"] = 1
             prune_empty_dirs(os.path.join(d, str(j)))
-            if ncut == len(order) and rng.random() < 0.5:
+            if ncut == len(order) and whole:
                 shutil.rmtree(os.path.join(d, str(j)), ignore_errors=True)
             done["step"] = j
     elif kind == "config_trunc":
@@ -265,6 +271,7 @@ class Run:
         self.solvers_attrs = {}
         self.perms = {}
         self.fsdir = None
+        self.loop = None
         self.stats = {}
         self.error = None
 
@@ -292,6 +299,9 @@ class LifetimeCtx:
         self.sweeps_in_call = 0
         self.pending_state = {}
         self.config_gate = False
+        self.real = False
+        self.state_path = None
+        self.eff = None
 
     # ---- writer policy ---------------------------------------------------------
     def _policy_target(self) -> str:
@@ -375,13 +385,47 @@ class LifetimeCtx:
             got = SIM.advance(self.inflight, c.get("phase", "W0"))
             self._after_advance(got)
             phase = got
-        if not self.snap_taken:
-            self.take_snapshot()
         self.crashed = {"seam": list(seam), "phase": phase, "had_inflight": phase is not None}
         self.run.stat(f"kill@{seam[0]}/{phase or '-'}")
+        if not self.snap_taken:
+            self.take_snapshot()
         raise SimCrash()
 
+    def real_kill(self):
+        """Real-lifetime mode: this is the kill.  Write out the model and die; nothing after
+        this instant can have an effect, exactly as with an external SIGKILL."""
+        import signal
+
+        run, h = self.run, self.h
+        if self.crashed is None:
+            self.crashed = {"seam": list(self.crash["seam"]), "phase": None, "had_inflight": False}
+            nm = self.crash["seam"][0] + ("/" + str(self.crash["seam"][2]) if self.crash["seam"][0] == "save_inside" else "")
+            run.stat(f"kill@{nm}")
+        dst = os.path.join(self.fsdir, self.dir_rel)
+        h["crash"] = dict(self.crashed)
+        h["crash"]["snap_listing"] = listing(dst)
+        h["crash"]["committed"] = sorted(run.committed.get(self.dir_rel, set()))
+        h["crash"]["_expiring"] = self.expiring
+        h["crash"]["_config_gate"] = self.config_gate
+        h["crash"]["real_sigkill"] = True
+        run.stat("real_sigkill")
+        run.sweeps[self.li] = self.sweep_raw
+        while len(run.boots) <= self.li:
+            run.boots.append({"state": None, "solver": None})
+        run.finals.append(None)
+        if self.solver is not None and type(self.solver).__name__ == "SemiAsyncValueIteration":
+            perms = getattr(self.solver, "_verif_permutations", None) or []
+            run.perms[self.li] = [None if p is None else np.array(p) for p in perms]
+            h["perm_digests"] = [dg(p) for p in run.perms[self.li]]
+        if self.solver is not None and self.crashed["seam"][0] != "construct":
+            run.loop["cur_rel"] = self.dir_rel
+            run.loop["ckpt"] = dict(self.eff)
+        dump_state(run, self.state_path)
+        os.kill(os.getpid(), signal.SIGKILL)
+
     def take_snapshot(self):
+        if self.real:
+            self.real_kill()
         if os.path.isdir(self.snapdir):
             shutil.rmtree(self.snapdir)
         shutil.copytree(self.fsdir, self.snapdir, symlinks=True)
@@ -447,7 +491,7 @@ class LifetimeCtx:
             ctx.force_writer()
             st = capture(solver)
             n0 = len(SIM.started)
-            e0 = SIM.entry_parked
+            e0 = SIM.bg_started
             before = set(steps_in(os.path.join(ctx.fsdir, ctx.dir_rel)))
             with SIM.cv:
                 SIM.entry_hold = ctx.asyn
@@ -456,8 +500,10 @@ class LifetimeCtx:
             ctx.pending_state[step] = st
             o_save(step)
             ctx._cur_save = None
-            started = len(SIM.started) > n0 or SIM.entry_parked > e0
-            ctx.h["saves"].append({"step": step, "started": started, "state": digest_state(st)})
+            started = len(SIM.started) > n0 or SIM.bg_started > e0
+            dies_inside = bool(ctx.crash and ctx.crash["seam"][0] == "save_inside" and int(ctx.crash["seam"][1]) == step and not ctx.crashed)
+            if not dies_inside:  # (a process killed inside save() never sees it return)
+                ctx.h["saves"].append({"step": step, "started": started, "state": digest_state(st)})
             ctx.run.rec.setdefault((ctx.dir_rel, step), []).append(st)
             if started:
                 ctx.pending_state[step] = st
@@ -505,22 +551,30 @@ def _safe_close(solver):
             pass
 
 
-def execute(plan: dict, root: str) -> Run:
-    """Execute all lifetimes of `plan` under `root` (a fresh scratch directory)."""
+def execute(plan: dict, root: str, resume: Run | None = None, only: int | None = None, real: bool = False) -> Run:
+    """Execute the lifetimes of `plan` under `root` (a fresh scratch directory).
+
+    In-process (default): all lifetimes in this interpreter, a kill = snapshot + unwind.
+    Real lifetimes (`real=True`, `only=i`, `resume=` state of the earlier lifetimes): exactly one
+    lifetime in this process; at the kill point the state is written out and the process
+    SIGKILLs itself - the directory is whatever the real kill leaves (mdpsim.lifetime)."""
     install()
     _load_solvers()
-    run = Run(plan)
+    run = resume if resume is not None else Run(plan)
     world = plan["world"]
     fsdir = os.path.join(root, "fs")
     run.fsdir = fsdir
     snapdir = os.path.join(root, "snap")
     os.makedirs(fsdir, exist_ok=True)
-    cur_rel = "ck0"
-    ndirs = 1
-    ckpt = dict(world["ckpt"])
-    prev_solver_cfg = None
+    if run.loop is None:
+        run.loop = {"cur_rel": "ck0", "ndirs": 1, "ckpt": dict(world["ckpt"])}
+    cur_rel, ndirs, ckpt = run.loop["cur_rel"], run.loop["ndirs"], run.loop["ckpt"]
     for li, lt in enumerate(plan["lifetimes"]):
+        if only is not None and li != only:
+            continue
         ctx = LifetimeCtx(run, li, lt, fsdir, snapdir)
+        ctx.real = real
+        ctx.state_path = os.path.join(root, "state.pkl")
         h = ctx.h
         run.hist["lifetimes"].append(h)
         route = lt.get("route", "construct")
@@ -537,6 +591,7 @@ def execute(plan: dict, root: str) -> Run:
         if "enable_async_checkpointing" in over:
             eff["async"] = over["enable_async_checkpointing"]
         ctx.asyn = bool(eff["async"])
+        ctx.eff = dict(eff)
         src_rel = cur_rel
         if lt.get("new_dir"):
             dst_rel = f"ck{ndirs}"
@@ -568,6 +623,7 @@ def execute(plan: dict, root: str) -> Run:
         ctx._cur_save = None
         solver = None
         boot = {"route": route, "result": "ok", "exc": None}
+        h["boot"] = boot
         crashed = False
         try:
             try:
@@ -695,20 +751,15 @@ def execute(plan: dict, root: str) -> Run:
             elif run.boots and run.boots[-1].get("solver") is not None:
                 _safe_close(run.boots[-1]["solver"])
             SIM.reset(None)
-            pert = ctx.crash.get("perturb", {"kind": "none"})
-            done = apply_perturbation(snapdir, dst_rel, pert, {"expiring": ctx.snap_expiring, "config_gate": ctx.config_gate})
-            h["crash"]["perturb"] = done
-            run.stat(f"perturb/{done['kind']}" + ("" if done["applied"] else "(noop)"))
-            h["crash"]["post_listing"] = listing(os.path.join(snapdir, dst_rel))
-            shutil.rmtree(fsdir)
-            os.rename(snapdir, fsdir)
+            h["crash"]["_expiring"] = ctx.snap_expiring
+            h["crash"]["_config_gate"] = ctx.config_gate
             # durable model: committed steps as of the snapshot
             run.committed = {k: set(v) for k, v in ctx.snap_committed.items()}
             run.commit_state = dict(ctx.snap_commit_state)
             run.dir_cfg = dict(ctx.snap_dir_cfg)
-            if ctx.snap_expiring is not None and done["kind"] == "partial_delete" and done["applied"]:
-                run.committed.get(dst_rel, set()).discard(ctx.snap_expiring)
-                run.damaged.setdefault(dst_rel, set()).add(ctx.snap_expiring)
+            post_crash(run, plan, li, snapdir)
+            shutil.rmtree(fsdir)
+            os.rename(snapdir, fsdir)
             run.finals.append(None)
         else:
             # graceful end: pending writes are awaited (what the repo's own tests do)
@@ -744,8 +795,48 @@ def execute(plan: dict, root: str) -> Run:
         if solver is not None and not (crashed and ctx.crashed and ctx.crashed["seam"][0] == "construct"):
             cur_rel = dst_rel
             ckpt = dict(eff)
+        run.loop = {"cur_rel": cur_rel, "ndirs": ndirs, "ckpt": ckpt}
         # a lifetime whose boot failed leaves the directory as it was; later lifetimes may retry
     return run
+
+
+def post_crash(run: Run, plan: dict, li: int, fs: str):
+    """What happens to the durable state after the kill of lifetime li: the perturbation
+    (applied to `fs`, the snapshot or - for real lifetimes - the live directory) and the model."""
+    h = run.hist["lifetimes"][li]
+    c = h["crash"]
+    dst_rel = h["dst"]
+    pert = plan["lifetimes"][li]["crash"].get("perturb", {"kind": "none"})
+    done = apply_perturbation(fs, dst_rel, pert, {"expiring": c.get("_expiring"), "config_gate": c.get("_config_gate")})
+    c["perturb"] = done
+    run.stat(f"perturb/{done['kind']}" + ("" if done["applied"] else "(noop)"))
+    c["post_listing"] = listing(os.path.join(fs, dst_rel))
+    if c.get("_expiring") is not None and done["kind"] == "partial_delete" and done["applied"]:
+        run.committed.get(dst_rel, set()).discard(c["_expiring"])
+        run.damaged.setdefault(dst_rel, set()).add(c["_expiring"])
+
+
+def dump_state(run: Run, path: str):
+    import pickle
+
+    keep_solvers, keep_boots = run.solvers, run.boots
+    run.solvers = [None for _ in keep_solvers]
+    run.boots = [{"state": b.get("state"), "solver": None} for b in keep_boots]
+    try:
+        with open(path + ".tmp", "wb") as f:
+            pickle.dump(run, f)
+            f.flush()
+            os.fsync(f.fileno())
+        os.replace(path + ".tmp", path)
+    finally:
+        run.solvers, run.boots = keep_solvers, keep_boots
+
+
+def load_state(path: str) -> Run:
+    import pickle
+
+    with open(path, "rb") as f:
+        return pickle.load(f)
 
 
 def _cfg_plain(cfg):
